@@ -84,7 +84,7 @@ func (g *genSet) write(repo, verifDir string) {
 	// name differs from the last element of its import path, or collides with a name the file uses
 	writeFile(filepath.Join(g.dir, "ext", "store", "v2", "store.go"), "// Package store has an import path ending in v2.\npackage store\n\ntype Record struct{ N int }\n\ntype Other struct{ M int }\n")
 	writeFile(filepath.Join(g.dir, "ext", "go-model", "model.go"), "// Package model lives in a directory whose name is not an identifier.\npackage model\n\ntype Item struct{ N int }\n")
-	writeFile(filepath.Join(g.dir, "ext", "inner", "context", "context.go"), "// Package context is a user package named like a standard one.\npackage context\n\ntype Token struct{ N int }\n")
+	writeFile(filepath.Join(g.dir, "ext", "inner", "context", "context.go"), "// Package context is a user package named like a standard one.\npackage context\n\ntype Token struct{ N int }\n\n// Context is an interface that the standard context.Context satisfies.\ntype Context interface{ Value(key any) any }\n\ntype holder struct{ h uint64 }\n\nfunc (h holder) Value(any) any { return h.h }\n\n// Mk returns a Context carrying h.\nfunc Mk(h uint64) Context { return holder{h: h} }\n\n// Hash reads the number a Context carries (0 for nil and for foreign implementations).\nfunc Hash(c Context) uint64 {\n\tif c == nil {\n\t\treturn 0\n\t}\n\tv, _ := c.Value(nil).(uint64)\n\treturn v\n}\n")
 	writeFile(filepath.Join(g.dir, "ext", "backend", "backend.go"), fmt.Sprintf("// Package backend exposes functions over types of packages its callers do not import.\npackage backend\n\nimport (\n\tictx \"%[1]s/ext/inner/context\"\n\tmodel \"%[1]s/ext/go-model\"\n\tstore \"%[1]s/ext/store/v2\"\n)\n\n"+
 		"func Fetch() (*store.Record, error) { return &store.Record{N: 7}, nil }\nfunc Describe(r *store.Record) int { return r.N + 1 }\n"+
 		"func Fetch2() store.Other { return store.Other{M: 9} }\nfunc Describe2(o store.Other) int32 { return int32(o.M) }\n"+
